@@ -9,8 +9,10 @@ import (
 	"crypto/sha1"
 	"encoding/hex"
 	"encoding/json"
+	"errors"
 	"flag"
 	"fmt"
+	"io"
 	"math/rand"
 	"os"
 	"runtime"
@@ -187,6 +189,80 @@ var tasks = []task{
 		sg.Free(sg.ShiftLen())
 		return hex.EncodeToString(h.Sum(nil))
 	}},
+	// every entry point on an EMPTY source (all empty cursors may share whatever the library uses for "no data")
+	{"empty-sources", func(r *rand.Rand, c map[string][]string) string {
+		h := sha1.New()
+		for _, z := range []*parse.Input{parse.NewInputString(""), parse.NewInputBytes(nil), parse.NewInputBytes([]byte{}), parse.NewInput(bytes.NewReader(nil))} {
+			fmt.Fprint(h, z.Peek(0), z.Len(), z.Err(), len(z.Bytes()), len(z.Lexeme()), z.Pos(), ";")
+		}
+		lx := buffer.NewLexerBytes(nil)
+		fmt.Fprint(h, lx.Peek(0), lx.Err(), len(lx.Bytes()), ";")
+		for _, lang := range []string{"css.lex", "html", "xml", "json", "js.lex"} {
+			fmt.Fprint(h, digestToks(lang, nil), ";")
+		}
+		ast, err := js.Parse(parse.NewInputString(""), js.Options{})
+		fmt.Fprint(h, err, ast != nil && len(ast.List) == 0)
+		return hex.EncodeToString(h.Sum(nil))
+	}},
+	// a caller that extends the slices it was handed (append on a returned slice is the caller's right): the library must not have
+	// handed out capacity over memory it still uses -- its own terminator, or something shared between cursors
+	{"caller-appends", func(r *rand.Rand, c map[string][]string) string {
+		var in []byte
+		if r.Intn(2) == 0 {
+			in = pick(r, c["js"])
+		}
+		x := byte('A' + r.Intn(26))
+		h := sha1.New()
+		z := parse.NewInputBytes(append([]byte{}, in...))
+		b := append(z.Bytes(), x)
+		fmt.Fprint(h, len(b), z.Peek(len(in)), z.Len(), z.PeekErr(len(in)), ";")
+		z2 := parse.NewInputString(string(in))
+		z2.Move(len(in) / 2)
+		l := append(z2.Lexeme(), x)
+		fmt.Fprint(h, len(l), z2.Peek(0), ";")
+		sh := append(z2.Shift(), x, x)
+		fmt.Fprint(h, len(sh), z2.Peek(0), z2.Peek(1), ";")
+		lx := buffer.NewLexerBytes(append([]byte{}, in...))
+		b2 := append(lx.Bytes(), x)
+		lx.Move(len(in) / 2)
+		l2 := append(lx.Lexeme(), x)
+		fmt.Fprint(h, len(b2), len(l2), lx.Peek(0), lx.Peek(len(in)-len(in)/2), lx.Err(), ";")
+		// cursors made afterwards
+		for _, y := range []*parse.Input{parse.NewInputString(""), parse.NewInputBytes(nil), parse.NewInputString(string(in))} {
+			fmt.Fprint(h, y.Peek(0), y.Peek(y.Len()), y.Len(), ";")
+		}
+		return hex.EncodeToString(h.Sum(nil))
+	}},
+	// stream lexers of the DEFAULT size: one over a reader that breaks with its own error after a few reads (how much was
+	// tokenised before the error depends on the buffer size alone), then one whose token outgrows the default buffer
+	{"stream-default", func(r *rand.Rand, c map[string][]string) string {
+		h := sha1.New()
+		word := pick(r, c["js"])
+		data := bytes.Repeat(append(append([]byte{}, word...), ' '), 1+20000/(len(word)+1))
+		fr := &failingReader{data: data, calls: 2 + r.Intn(3)}
+		sl := buffer.NewStreamLexer(fr)
+		words, n := 0, 0
+		for sl.Err() == nil && n < 4*len(data) {
+			n++
+			if ch := sl.Peek(0); ch == ' ' {
+				sl.Move(1)
+				words++
+				fmt.Fprint(h, len(sl.Shift()))
+				sl.Free(sl.ShiftLen())
+			} else if ch != 0 || sl.Err() == nil {
+				sl.Move(1)
+			}
+		}
+		fmt.Fprint(h, ";", words, sl.Err(), ";")
+		big := buffer.NewStreamLexer(bytes.NewReader(bytes.Repeat([]byte{'a'}, 5000+r.Intn(4000))))
+		k := 0
+		for big.Peek(k) != 0 {
+			k++
+		}
+		big.Move(k)
+		fmt.Fprint(h, k, len(big.Shift()), big.Err())
+		return hex.EncodeToString(h.Sum(nil))
+	}},
 	{"binary", func(r *rand.Rand, c map[string][]string) string {
 		w := parse.NewBinaryWriter(nil)
 		v := r.Uint64()
@@ -202,6 +278,27 @@ var tasks = []task{
 		return sum(a, b2, c2, d, string(e), f, rd.Err(), rd.Pos(), rd.Len())
 	}},
 }
+
+// failingReader delivers as much as it is asked for and breaks with its own error at its calls-th Read
+type failingReader struct {
+	data  []byte
+	calls int
+}
+
+func (f *failingReader) Read(p []byte) (int, error) {
+	f.calls--
+	if f.calls < 0 {
+		return 0, errBroken
+	}
+	n := copy(p, f.data)
+	f.data = f.data[n:]
+	if len(f.data) == 0 {
+		return n, io.EOF
+	}
+	return n, nil
+}
+
+var errBroken = errors.New("reader broke")
 
 type counter struct{ n *int }
 
